@@ -70,7 +70,7 @@ impl Prop for C12 {
         let w_clear = *rng.pick(&[0u32, 0, 1]);
         let w_len = *rng.pick(&[0u32, 1, 2]);
         let w_empty = *rng.pick(&[0u32, 1]);
-        let n = if tier == Tier::Thorough && run % 8 == 7 { 3000 } else { *rng.pick(&[3usize, 8, 20, 60, 150, 300]) };
+        let n = if tier == Tier::Thorough && run % 64 == 63 { 3000 } else { *rng.pick(&[3usize, 8, 20, 60, 150, 300]) };
         let n = rng.urange(1, n);
         let mut k: i16 = 0;
         for _ in 0..n {
